@@ -954,8 +954,8 @@ func TestC20E2E(t *testing.T) {
 				A.dt.Stop(context.Background())
 				B.dt.Stop(context.Background())
 			}) {
-				if left := vf.ParkedOnLocks(); len(left) > 0 {
-					c.Violation("C20", "goroutine-left-on-library-lock "+left[0], "after Manager.Stop returned, library goroutines are still parked on locks: %v", left)
+				if left, dump := vf.ParkedOnLocks(); len(left) > 0 {
+					c.Violation("C20", "goroutine-left-on-library-lock "+left[0], "12 s after Manager.Stop returned, library goroutines are still parked on locks: %v\n%s", left, dump)
 				}
 			}
 		}
